@@ -13,7 +13,7 @@ fn check_ops(a: f64, b: f64) -> Option<Cex> {
     if a.is_nan() || b.is_nan() { return None; }
     let r = guarded(|| {
         let (x, y) = (f80::from(a), f80::from(b));
-        let mut v: Vec<(&str, f64, f64)> = vec![("abs", f64::from(x.abs()), a.abs()), ("neg", f64::from(-x), -a)];
+        let mut v: Vec<(&str, f64, f64)> = vec![("abs", f64::from(x.abs()), a.abs()), ("neg", f64::from(-x), -a), ("f64 -> f80 -> f64", f64::from(x), a), ("neg neg", f64::from(-(-x)), a)];
         if !(a == 0.0 && b == 0.0) {
             v.push(("min", f64::from(x.min(y)), a.min(b)));
             v.push(("max", f64::from(x.max(y)), a.max(b)));
@@ -38,7 +38,9 @@ fn check_ops(a: f64, b: f64) -> Option<Cex> {
     });
     match r {
         Err(e) => Some(Cex { input: format!("ops:{:016x},{:016x}", a.to_bits(), b.to_bits()), observed: e, expected: "no panic".into() }),
-        Ok(v) => v.into_iter().find(|(_, g, w)| !(g == w || (g.is_nan() && w.is_nan()))).map(|(n, g, w)| Cex {
+        // arithmetic, negation and conversions: bit patterns, so that the sign of a zero result counts (any NaN matches any NaN);
+        // abs / min / max are specified through the IEEE *order* of the values (-0 equal to +0): compared by value
+        Ok(v) => v.into_iter().find(|(n, g, w)| !(g.to_bits() == w.to_bits() || (g.is_nan() && w.is_nan()) || (["abs", "min", "max"].contains(n) && g == w))).map(|(n, g, w)| Cex {
             input: format!("ops:{:016x},{:016x}", a.to_bits(), b.to_bits()),
             observed: format!("a={:?} b={:?}: {} gave {:?}", a, b, n, g), expected: format!("{:?}", w) }),
     }
@@ -60,7 +62,51 @@ fn check(a: f64, b: f64) -> Option<Cex> {
     }
 }
 
+/// comparisons are re-evaluated every time they are executed (the operands are read from memory by inline asm): the same two places
+/// compared again after one of them was stored to.  Only an optimised build can get this wrong.
+#[inline(never)]
+fn steps_until(limit: f64, step: f64) -> u32 {
+    let limit = f80::from(limit);
+    let step = f80::from(step);
+    let mut x = f80::from(0.0);
+    let mut n = 0u32;
+    while x < limit && n < 1000 {
+        x += step;
+        n += 1;
+    }
+    n
+}
+#[inline(never)]
+fn steps_down(limit: f64, step: f64) -> u32 {
+    let (limit, step) = (f80::from(limit), f80::from(step));
+    let mut x = f80::from(0.0);
+    let mut n = 0u32;
+    while x > limit && n < 1000 { x -= step; n += 1; }
+    let mut y = f80::from(0.0);
+    while y >= limit && n < 2000 { y -= step; n += 1; }
+    n
+}
+fn check_loops() -> Option<Cex> {
+    let r = guarded(|| {
+        let mut a = f80::from(1.0);
+        let b = f80::from(2.0);
+        let first = a < b;
+        a = a + b + b;
+        let second = a < b;
+        let third = a.abs() >= b;
+        (steps_until(10.0, 1.0), steps_until(0.75, 0.25), steps_until(-1.0, 1.0), steps_down(-4.0, 1.0), first, second, third)
+    });
+    let want = (10u32, 3u32, 0u32, 9u32, true, false, true);
+    match r {
+        Ok(g) if g == want => None,
+        other => Some(Cex { input: "loops".into(), observed: format!("(steps_until(10,1), steps_until(.75,.25), steps_until(-1,1), steps_down(-4,1), 1<2, 5<2, |5|>=2) = {:?}", other), expected: format!("{:?}", want) }),
+    }
+}
+
 pub fn run(_seed: u64, replay: Option<String>) -> Outcome {
+    if replay.as_deref() == Some("loops") {
+        return Outcome { cex: check_loops(), cases: 1 };
+    }
     if let Some(r) = replay {
         let ops = r.starts_with("ops:");
         let r = r.trim_start_matches("ops:").to_string();
@@ -69,7 +115,10 @@ pub fn run(_seed: u64, replay: Option<String>) -> Outcome {
         let b = f64::from_bits(u64::from_str_radix(p.get(1).unwrap_or(&"0"), 16).unwrap_or(0));
         return Outcome { cex: if ops { check_ops(a, b) } else { check(a, b) }, cases: 1 };
     }
-    let mut cases = 0;
+    let mut cases = 1;
+    if let Some(c) = check_loops() {
+        return Outcome { cex: Some(c), cases };
+    }
     // ordered operands first, so that a *new* violation is reported ahead of the known NaN / signed-zero findings
     let v = vals();
     for pass in 0..2 {
